@@ -45,6 +45,8 @@ pub fn case_strategy(max_frames: usize, max_steps: usize) -> impl Strategy<Value
                 target,
                 frames,
                 cuts,
+                // one case in four puts the halves together and takes them apart between receives
+                rejoin: if pend.first().copied().unwrap_or(0) == 2 || pend.len() == 3 && pend[2] == 1 { 1 + pend.len() as u8 % 3 } else { 0 },
                 pend,
                 cancel: vec![],
             }
@@ -268,6 +270,7 @@ pub fn run(ctx: &Ctx) -> i32 {
             cuts: cuts.clone(),
             pend: vec![],
             cancel: vec![],
+            rejoin: (i % 3 == 2) as u8,
         };
         stats.eval();
         let expected = case.expected();
